@@ -20,6 +20,7 @@ import Poulpy.Lemmas.EpTotal
 import Poulpy.Lemmas.CswapTotal
 import Poulpy.Lemmas.HeadRoom
 import Poulpy.Lemmas.ExpandTotal
+import Poulpy.Lemmas.EpConvert
 import Poulpy.Lemmas.MulNorm
 
 /-!
@@ -1327,5 +1328,130 @@ example (σ : ℕ → Ks.R 1) : C02L.GWF 1 (Ks.mkCt 4 1 [[[1], [0], [0]], [[3], 
     (by decide) (by decide) rfl (Ks.entry_length (exT.at 0).toPMat 1 rfl (by decide)) (by decide) (by decide) rfl
     (by intro i _ r _; exact (add_sub_cancel _ _).symm) rfl
   exact h.1
+
+/-! ## Any input radix: the conversion discharged, covered regime -/
+
+/-- the executable shape check gives the well-formedness predicate -/
+theorem wf_of_shapeOk (n cols size : Nat) (x : List Col) (h : shapeOk n cols size x = true) : x.length = cols ∧ ∀ c ∈ x, C02L.ColWF n size c := by
+  unfold shapeOk at h
+  simp only [Bool.and_eq_true, beq_iff_eq, List.all_eq_true] at h
+  exact ⟨h.1, fun c hc => ⟨(h.2 c hc).1, fun l hl => (h.2 c hc).2 l hl⟩⟩
+
+/-- the gadget terms of an external product: `Σ_i (Σ_r digit·E − dropped − β^S·head)` -/
+noncomputable def epErr (N : Nat) (sk : List Poly) (a : List Col) (g : EpGGSW) (β : Ks.R N) (E : ℕ → ℕ → Ks.R N) : Ks.R N :=
+  ∑ i ∈ Finset.range (g.rank + 1),
+    (∑ r ∈ Finset.range g.dnum,
+        Gadget.digit β g.dsize g.dnum (a.getD 0 []).length (Ks.inLimb N (mkBuf g.n (g.rank + 1) (a.getD 0 []).length a) i) r * E i r
+      - Gadget.dropped β g.size g.dsize g.dnum (a.getD 0 []).length
+          (Ks.inLimb N (mkBuf g.n (g.rank + 1) (a.getD 0 []).length a) i) (Ks.keyPhase N sk g.toPMat i)
+      - β ^ g.size * Gadget.head β g.dsize g.dnum (a.getD 0 []).length
+          (Ks.inLimb N (mkBuf g.n (g.rank + 1) (a.getD 0 []).length a) i) (Ks.keyPhase N sk g.toPMat i))
+
+example : ([[[1], [0]], [[2], [3]]] : List Col).length = 2 ∧ ∀ c ∈ ([[[1], [0]], [[2], [3]]] : List Col), C02L.ColWF 1 2 c :=
+  wf_of_shapeOk 1 2 2 _ (by decide)
+
+/-- **`ep_decrypts_any_radix`** — `glwe_external_product` END TO END with NO conversion hypothesis: input in ANY radix `1..62` (converted by
+`glwe_normalize` into the GGSW radix — `Core.epConvert_total`: it returns and is exact on the torus), result in any radix, every `dsize ≥ 1`, every
+rank, both accumulator widths, covered regime (`⌈sa·ab/bg⌉ ≤ min(size, dnum·dsize)`), head-room derived from digit bounds (`Core.prodAdmissible`).
+With `σ_0 = 1`, `σ_{i+1} = s_i`:
+`2^(ab·sa + bg·S)·phase(res) = 2^(rb·rs)·(2^(bg·S)·m2·phase(a) + 2^(ab·sa)·epErr) + 2^(ab·sa)·En + 2^(ab·sa+rb·rs+bg·S)·Q` — the result decrypts to
+`m2 · phase(a)` plus the gadget error (`epErr = Σ_i(Σ_r digit·E − dropped − β^S·head)` on the converted input) and the final rounding
+`‖En‖_∞ ≤ (1+Σ‖s_i‖₁)·normTol` (`0` when `bg·S ≤ rb·rs`). -/
+theorem ep_decrypts_any_radix {N : Nat} (big128 : Bool) (rb rs ab : Nat) (a : List Col) (g : EpGGSW) (sk : List Poly) (Hin Da Dm : Int)
+    (hg : (g.n == N && g.wf && shapeOk N (g.rank + 1) (a.getD 0 []).length a) = true)
+    (hrb1 : 1 ≤ rb) (hrb : rb ≤ 62) (hab1 : 1 ≤ ab) (hab : ab ≤ 62) (hgb1 : 1 ≤ g.base2k) (hgb : g.base2k ≤ 62)
+    (hH0 : 0 ≤ Hin) (hH : Hin + 8 ≤ 2 ^ 62) (hb : ∀ c ∈ a, ∀ l ∈ c, ∀ x ∈ l, |x| ≤ Hin)
+    (hDa : if ab = g.base2k then Hin ≤ Da else 2 ^ g.base2k - 1 ≤ Da) (hDm : 0 ≤ Dm)
+    (hadm : prodAdmissible (bitsOf big128) g.dsize (g.rank + 1) g.dnum N Da Dm 0)
+    (hgd : ∀ row ∈ g.cells, ∀ c ∈ row, ∀ l ∈ c, ∀ x ∈ l, |x| ≤ Dm)
+    (m2 : Ks.R N) (σ : ℕ → Ks.R N) (E : ℕ → ℕ → Ks.R N)
+    (hd : 1 ≤ g.dsize) (hN : 0 < N) (hn : g.n = N)
+    (hM : ∀ j q, (g.toPMat.entry j q).length = N) (hS : g.dnum * g.dsize ≤ g.size)
+    (hkey : ∀ i, i < g.rank + 1 → ∀ r, r < g.dnum →
+      Gadget.val ((2 : Ks.R N) ^ g.base2k) g.size (Ks.keyPhase N sk g.toPMat i r)
+        = m2 * σ i * ((2 : Ks.R N) ^ g.base2k) ^ (g.size - (r + 1) * g.dsize) + E i r)
+    (hcov1 : epConvSize (a.getD 0 []).length ab g.base2k ≤ g.size)
+    (hcov2 : epConvSize (a.getD 0 []).length ab g.base2k ≤ g.dnum * g.dsize)
+    (hsk : g.rank ≤ sk.length) (hσ0 : σ 0 = 1) (hσ : ∀ i, i < g.rank → σ (i + 1) = Ks.ι N (sk.getD i [])) :
+    ∃ res aConv, glweExternalProduct big128 N rb rs a ab g = .ok res ∧ epConvert N a ab g = some aConv ∧
+      C02L.GWF N (Ks.mkCt rb N res) ∧ (∀ c ∈ res, ∀ l ∈ c, ∀ x ∈ l, |x| ≤ 2 ^ rb - 1) ∧
+      ∃ (En : Poly) (Qr : Ks.R N), En.length = N ∧
+        normInf En ≤ (1 + C02L.snorm (min g.rank sk.length) sk) * C02.normTol (rb * rs) (g.base2k * g.size) ∧
+        (2 : Ks.R N) ^ (ab * (a.getD 0 []).length + g.base2k * g.size) * Ks.ι N (C02L.valP rb N (Core.Ops.phase sk (Ks.mkCt rb N res)))
+          = (2 : Ks.R N) ^ (rb * rs) *
+              ((2 : Ks.R N) ^ (g.base2k * g.size) * m2 * Ks.ι N (C02L.valP ab N (Core.Ops.phase sk (Ks.mkCt ab N a)))
+                + (2 : Ks.R N) ^ (ab * (a.getD 0 []).length) * epErr N sk aConv g ((2 : Ks.R N) ^ g.base2k) E)
+            + (2 : Ks.R N) ^ (ab * (a.getD 0 []).length) * Ks.ι N En
+            + (2 : Ks.R N) ^ (ab * (a.getD 0 []).length + rb * rs + g.base2k * g.size) * Qr := by
+  have hg' := hg
+  simp only [Bool.and_eq_true, beq_iff_eq] at hg'
+  obtain ⟨⟨_, _⟩, hsh⟩ := hg'
+  obtain ⟨hal, hawf⟩ := wf_of_shapeOk N _ _ a hsh
+  have hane : a ≠ [] := by intro h; rw [h] at hal; simp at hal
+  set sa := (a.getD 0 []).length with hsa
+  obtain ⟨aConv, hc, hcl, hcwf, hcdig, hcph⟩ := epConvert_total N hN a ab g sa Hin hane hawf hab1 hab hgb1 hgb hH0 hH hb
+  set cs := epConvSize sa ab g.base2k with hcs
+  have hDa0 : 0 ≤ Da := by
+    split at hDa
+    · linarith
+    · have : (1 : Int) ≤ 2 ^ g.base2k := one_le_pow₀ (by norm_num)
+      linarith
+  have hcb : ∀ c ∈ aConv, ∀ l ∈ c, ∀ x ∈ l, |x| ≤ Da := by
+    intro c hc' l hl x hx
+    have := hcdig c hc' l hl x hx
+    split at this <;> split at hDa <;> first | linarith | contradiction
+  have hcl' : aConv.length = g.rank + 1 := by rw [hcl, hal]
+  have h0c : 0 < aConv.length := by rw [hcl']; omega
+  have hcs0 : (aConv.getD 0 []).length = cs := by
+    rw [List.getD_eq_getElem?_getD, List.getElem?_eq_getElem h0c]; exact (hcwf _ (List.getElem_mem h0c)).1
+  have haC : shapeOk g.n (g.rank + 1) (aConv.getD 0 []).length aConv = true := by
+    rw [hn, hcs0]
+    unfold shapeOk
+    simp only [Bool.and_eq_true, beq_iff_eq, List.all_eq_true]
+    exact ⟨hcl', fun c hc' => ⟨(hcwf c hc').1, fun l hl => (hcwf c hc').2 l hl⟩⟩
+  obtain ⟨res, hres, hgwf, hdig, En, Q, hE, hQ, hnm, heq⟩ := ep_decrypts_of_digits big128 rb rs ab a aConv g sk Da Dm hg hc hrb1 hrb hgb1 hgb
+    hDa0 hDm hadm hcb hgd m2 σ E hd hN hn haC hM hS hkey
+  obtain ⟨Q1, hQ1, hconv⟩ := hcph sk
+  have hcov := ep_covered_value N hN aConv g sk σ cs hcl' hcwf hd hcov1 hcov2 hsk hσ0 hσ
+  refine ⟨res, aConv, hres, hc, hgwf, hdig, En, Ks.ι N Q + m2 * Ks.ι N Q1, hE, hnm, ?_⟩
+  unfold epValue at heq
+  unfold epErr
+  rw [hcov] at heq
+  have hpow : ((2 : Ks.R N) ^ g.base2k) ^ (g.size - cs) * (2 : Ks.R N) ^ (g.base2k * cs) = (2 : Ks.R N) ^ (g.base2k * g.size) := by
+    rw [← pow_mul, ← pow_add]
+    congr 1
+    have : g.base2k * (g.size - cs) + g.base2k * cs = g.base2k * g.size := by
+      rw [← Nat.mul_add]; congr 1; omega
+    exact this
+  have e1 : (2 : Ks.R N) ^ (ab * sa + g.base2k * g.size) = (2 : Ks.R N) ^ (ab * sa) * (2 : Ks.R N) ^ (g.base2k * g.size) := pow_add _ _ _
+  have e2 : (2 : Ks.R N) ^ (ab * sa + rb * rs + g.base2k * g.size)
+      = (2 : Ks.R N) ^ (ab * sa) * (2 : Ks.R N) ^ (rb * rs) * (2 : Ks.R N) ^ (g.base2k * g.size) := by rw [pow_add, pow_add]
+  have e3 : (2 : Ks.R N) ^ (rb * rs + g.base2k * g.size) = (2 : Ks.R N) ^ (rb * rs) * (2 : Ks.R N) ^ (g.base2k * g.size) := pow_add _ _ _
+  have e4 : (2 : Ks.R N) ^ (g.base2k * cs + ab * sa) = (2 : Ks.R N) ^ (g.base2k * cs) * (2 : Ks.R N) ^ (ab * sa) := pow_add _ _ _
+  rw [e3] at heq
+  rw [e4] at hconv
+  rw [e1, e2]
+  linear_combination ((2 : Ks.R N) ^ (ab * sa)) * heq
+    + ((2 : Ks.R N) ^ (rb * rs) * m2 * ((2 : Ks.R N) ^ g.base2k) ^ (g.size - cs)) * hconv
+    + ((2 : Ks.R N) ^ (rb * rs) * m2 * Ks.ι N (C02L.valP ab N (Core.Ops.phase sk (Ks.mkCt ab N a)))
+        + (2 : Ks.R N) ^ (ab * sa) * (2 : Ks.R N) ^ (rb * rs) * m2 * Ks.ι N Q1) * hpow
+
+/-- cross radix (`2^2 → 2^4`), `dsize = 3` GGSW `staleG`, NTT120 accumulator, every hypothesis discharged -/
+example (m2 : Ks.R 1) : ∃ res aConv, glweExternalProduct true 1 4 4 [[[1], [0]], [[0], [1]]] 2 staleG = .ok res ∧
+    epConvert 1 [[[1], [0]], [[0], [1]]] 2 staleG = some aConv ∧ C02L.GWF 1 (Ks.mkCt 4 1 res) := by
+  obtain ⟨res, aConv, h1, h2, h3, _⟩ := ep_decrypts_any_radix (N := 1) true 4 4 2 [[[1], [0]], [[0], [1]]] staleG [[1]] 1 15 1
+    (by decide) (by decide) (by decide) (by decide) (by decide) (by decide) (by decide) (by decide) (by decide) (by decide)
+    (by decide) (by decide) (by decide) (by decide)
+    m2 (fun i => if i = 0 then 1 else Ks.ι 1 [1])
+    (fun i r => Gadget.val ((2 : Ks.R 1) ^ staleG.base2k) staleG.size (Ks.keyPhase 1 [[1]] staleG.toPMat i r)
+      - m2 * (if i = 0 then 1 else Ks.ι 1 [1]) * ((2 : Ks.R 1) ^ staleG.base2k) ^ (staleG.size - (r + 1) * staleG.dsize))
+    (by decide) (by decide) rfl (Ks.entry_length staleG.toPMat 1 rfl (by decide)) (by decide)
+    (by intro i _ r _; exact (add_sub_cancel _ _).symm)
+    (by decide) (by decide) (by decide) rfl
+    (by intro i hi; have : i = 0 := by
+          have : i < 1 := hi
+          omega
+        subst this; rfl)
+  exact ⟨res, aConv, h1, h2, h3⟩
 
 end C04
